@@ -5,6 +5,7 @@ import queue
 from vlib import core, prog, physics, h5oracle
 
 ASSUME = [
+    "a third of the files use machine parameters away from their defaults (phase space size, revolution frequency, beam energy and spread, RF voltage, bending radius, cutoff frequency, alpha1/alpha2)",
     "a quarter of the single-bunch files come from runs started from a crafted start file (two off-centre blobs), mostly without renormalisation",
     "one file in eight comes from a run interrupted by a real SIGINT at a random interrupt point (guarded hook); its final step is the one the hook's log implies (set-up: 0, inside a step: step+1)",
     "final step = ceil(steps*T) with T in single precision as the program takes it; the generator uses dyadic T or T with steps*T well away from an integer, so the oracle never takes sides on that rounding",
@@ -100,6 +101,27 @@ def gen_case(seed, i, tier):
         o["StepsPerRevolution"] = round(steps * o["SynchrotronFrequency"] / 9e6 * r.uniform(0.9, 1.1), 6)
     if r.chance(0.2):
         o["DampingTime"] = r.choice([0.0, 5e-3])
+    if i % 3 == 1:
+        # machine parameters away from their defaults: axes, unit attributes and the absolute wake scale must follow them
+        if r.chance(0.5):
+            o["PhaseSpaceSize"] = r.choice([8.0, 10.0, 14.0, 16.0])
+        if r.chance(0.4) and nbk == 1:
+            o["RevolutionFrequency"] = r.choice([2.7e6, 5e6, 1.2e7])
+        if r.chance(0.4):
+            o["BeamEnergy"] = r.choice([0.6e9, 1.0e9, 1.6e9, 2.5e9])
+        if r.chance(0.4):
+            o["AcceleratingVoltage"] = r.choice([1.1e6, 1.4e6, 3e6])
+        if r.chance(0.3):
+            o["BendingRadius"] = r.choice([4.0, 8.0])
+        if r.chance(0.3):
+            o["BeamEnergySpread"] = r.choice([3e-4, 1e-3])
+        if r.chance(0.3):
+            o["CutoffFreq"] = r.choice([0.0, 1e10, 5e10])
+        if r.chance(0.3):
+            o["alpha1"] = r.choice([2e-2, -1e-2])
+        if r.chance(0.15):
+            o["alpha2"] = r.choice([0.1, -0.2])
+        o["_machine"] = True
     if nbk == 1 and i % 8 in (2, 6):
         # the run starts from a distribution read from a file (two off-centre blobs, nothing like the built-in Gaussian):
         # record 0 must describe *that* distribution, whatever the renormalisation setting
@@ -176,6 +198,7 @@ def run_case(args):
         h5oracle.check_file(h, chk, rep, steps_done=steps_done)
         out["interrupted"] = steps_done is not None
         out["from_start_file"] = bool(o.get("_startfile"))
+        out["machine"] = bool(o.get("_machine"))
         ntrk = o.get("_tracking", 0)
         if h["/Particles/data"].shape[1:] != (ntrk, 2):
             rep.v("C10:particles_shape", "particle dataset does not have one row per tracked particle", shape=list(h["/Particles/data"].shape), particles=ntrk)
@@ -217,8 +240,10 @@ def run(ctx):
             ctx.ev("interrupted_files_checked")
         if res.get("from_start_file"):
             ctx.ev("files_of_runs_started_from_a_file")
+        if res.get("machine"):
+            ctx.ev("files_with_non_default_machine_parameters")
         ctx.ev("records_checked", res["records"])
         res["rep"].merge_into(ctx, w)
         ctx.sample(dict(options=res["opts"], records=res["records"]))
     ctx.min_events = {"files_checked": max(10, n // 2), "projections_compared": 100, "moment_records_compared": 200,
-                      "wake_records_compared": 30, "files_of_runs_started_from_a_file": max(3, n // 12), "csr_records_compared": 100, "unit_attributes_checked": 200}
+                      "wake_records_compared": 30, "files_of_runs_started_from_a_file": max(3, n // 12), "files_with_non_default_machine_parameters": max(5, n // 6), "csr_records_compared": 100, "unit_attributes_checked": 200}
